@@ -73,6 +73,12 @@ func termRec(v ssa.Value, env termEnv, seen map[ssa.Value]bool) string {
 	case *ssa.BinOp:
 		return "(" + termRec(x.X, env, seen) + x.Op.String() + termRec(x.Y, env, seen) + ")"
 	case *ssa.Extract:
+		if call, ok := x.Tuple.(*ssa.Call); ok {
+			if g := call.Call.StaticCallee(); g != nil && IsModuleFunc(g) && len(g.Blocks) > 0 && env.depth < 4 {
+				// the x.Index-th result of a module function: its term over the arguments
+				return callResultTerm(call, g, x.Index, env, seen)
+			}
+		}
 		return termRec(x.Tuple, env, seen) + "#" + itoa(x.Index)
 	case *ssa.UnOp:
 		if x.Op != token.MUL {
@@ -125,30 +131,7 @@ func termRec(v ssa.Value, env termEnv, seen map[ssa.Value]bool) string {
 		}
 		if IsModuleFunc(g) && len(g.Blocks) > 0 && env.depth < 4 {
 			// inline: the term(s) of its first result over its own parameters, with the arguments substituted
-			sub := map[*ssa.Parameter]string{}
-			for i, pr := range g.Params {
-				if i < len(args) {
-					sub[pr] = args[i]
-				}
-			}
-			inner := termEnv{fn: g, subst: sub, depth: env.depth + 1}
-			var rs []string
-			for _, r := range returnsOf(g) {
-				if len(r.Results) > 0 {
-					rs = append(rs, termRec(r.Results[0], inner, map[ssa.Value]bool{}))
-				}
-			}
-			sort.Strings(rs)
-			var out []string
-			for i, s := range rs {
-				if i == 0 || s != rs[i-1] {
-					out = append(out, s)
-				}
-			}
-			if len(out) == 1 {
-				return out[0]
-			}
-			return "ret{" + strings.Join(out, " | ") + "}"
+			return callResultTerm(x, g, 0, env, seen)
 		}
 		name := g.Name()
 		if g.Pkg != nil {
@@ -157,4 +140,36 @@ func termRec(v ssa.Value, env termEnv, seen map[ssa.Value]bool) string {
 		return name + "(" + strings.Join(args, ",") + ")"
 	}
 	return "?" + v.Name() + ":" + strings.SplitN(v.String(), " ", 2)[0]
+}
+
+// callResultTerm: the term(s) of result idx of module function g over the arguments of the call.
+func callResultTerm(x *ssa.Call, g *ssa.Function, idx int, env termEnv, seen map[ssa.Value]bool) string {
+	var args []string
+	for _, a := range x.Call.Args {
+		args = append(args, termRec(a, env, seen))
+	}
+	sub := map[*ssa.Parameter]string{}
+	for i, pr := range g.Params {
+		if i < len(args) {
+			sub[pr] = args[i]
+		}
+	}
+	inner := termEnv{fn: g, subst: sub, depth: env.depth + 1}
+	var rs []string
+	for _, r := range returnsOf(g) {
+		if len(r.Results) > idx {
+			rs = append(rs, termRec(r.Results[idx], inner, map[ssa.Value]bool{}))
+		}
+	}
+	sort.Strings(rs)
+	var out []string
+	for i, s := range rs {
+		if i == 0 || s != rs[i-1] {
+			out = append(out, s)
+		}
+	}
+	if len(out) == 1 {
+		return out[0]
+	}
+	return "ret{" + strings.Join(out, " | ") + "}"
 }
